@@ -121,6 +121,8 @@ func c04Values(types []*pt.Type) []c04Value {
 		c04Value{"empty:[{}]", nil, pt.A(pt.M())}, c04Value{"empty:{k:[]}", nil, pt.M("k", pt.A())}, c04Value{"empty:{k:{}}", nil, pt.M("k", pt.M())},
 		c04Value{"mixed:[1 []]", nil, pt.A(pt.A(pt.N(1)), pt.A())}, c04Value{"mixed:[[1] [\"a\"]]", nil, pt.A(pt.A(pt.N(1)), pt.A(pt.S("a")))},
 		c04Value{"mixed:[1 2 {}]", nil, pt.A(pt.N(1), pt.N(2), pt.M())},
+		c04Value{"mixed:[[\"x\" \"y\"] [10 20]]", nil, pt.A(pt.A(pt.S("x"), pt.S("y")), pt.A(pt.N(10), pt.N(20)))}, c04Value{"mixed:[{a:1} {a:\"s\"}]", nil, pt.A(pt.M("a", pt.N(1)), pt.M("a", pt.S("s")))},
+		c04Value{"mixed:{p:[1] q:[true]}", nil, pt.M("p", pt.A(pt.N(1)), "q", pt.A(pt.B(true)))}, c04Value{"mixed:[[[1]] [[\"a\"]]]", nil, pt.A(pt.A(pt.A(pt.N(1))), pt.A(pt.A(pt.S("a"))))},
 		c04Value{"mixed:[[] [1]]", nil, pt.A(pt.A(), pt.A(pt.N(1)))}, c04Value{"mixed:[{} {a:1}]", nil, pt.A(pt.M(), pt.M("a", pt.N(1)))},
 		c04Value{"mixed:[{a:1} {}]", nil, pt.A(pt.M("a", pt.N(1)), pt.M())}, c04Value{"mixed:{p:{} q:{a:1}}", nil, pt.M("p", pt.M(), "q", pt.M("a", pt.N(1)))},
 		c04Value{"mixed:{p:[1] q:[]}", nil, pt.M("p", pt.A(pt.N(1)), "q", pt.A())}, c04Value{"mixed:[[] [[1]]]", nil, pt.A(pt.A(), pt.A(pt.A(pt.N(1))))},
@@ -248,6 +250,11 @@ func runC04(w *fw.Worker) {
 		emit("index-of-string", cell, true, cat(pre, []pt.Stmt{pt.Print(pt.Index{X: pt.S("ab"), I: val.x})})...)
 		emit("index-of-map", cell, true, cat(pre, []pt.Stmt{pt.Print(pt.Index{X: pt.M("a", pt.N(1)), I: val.x})})...)
 		emit("indexed", cell, true, cat(pre, []pt.Stmt{typeofPrint(pt.Index{X: val.x, I: pt.N(0)})})...)
+		// two levels down: the elements of the elements have the run-time representation their static type promises
+		emit("indexed-twice", cell, true, cat(pre, []pt.Stmt{typeofPrint(pt.Index{X: pt.Index{X: val.x, I: pt.N(0)}, I: pt.N(0)}),
+			pt.Print(pt.Bin("==", pt.Index{X: pt.Index{X: val.x, I: pt.N(0)}, I: pt.N(0)}, pt.Index{X: pt.Index{X: val.x, I: pt.N(-1)}, I: pt.N(0)}), pt.C("len", pt.Index{X: val.x, I: pt.N(-1)}))})...)
+		emit("ranged-twice", cell, true, cat(pre, []pt.Stmt{pt.For{Var: "r", Range: []pt.Expr{val.x}, Body: []pt.Stmt{pt.For{Var: "e", Range: []pt.Expr{pt.V("r")}, Body: []pt.Stmt{typeofPrint(pt.V("e"))}}}}})...)
+		emit("field-of-element", cell, true, cat(pre, []pt.Stmt{typeofPrint(pt.Dot{X: pt.Index{X: val.x, I: pt.N(0)}, Key: "a"}), pt.Print(pt.Bin("==", pt.Dot{X: pt.Index{X: val.x, I: pt.N(0)}, Key: "a"}, pt.Dot{X: pt.Index{X: val.x, I: pt.N(-1)}, Key: "a"}))})...)
 		emit("indexed-by-string", cell, true, cat(pre, []pt.Stmt{typeofPrint(pt.Index{X: val.x, I: pt.S("k")})})...)
 		emit("field", cell, true, cat(pre, []pt.Stmt{typeofPrint(pt.Dot{X: val.x, Key: "k"})})...)
 		emit("sliced", cell, true, cat(pre, []pt.Stmt{typeofPrint(pt.Slice{X: val.x, Lo: pt.N(0)})})...)
